@@ -33,7 +33,7 @@ def datum_stores(crate):
     return out
 
 
-def _both_queues_on_change(ctx, crate, b, store_bb, new_role_pred, key, idrole_hint=None):
+def _both_queues_on_change(ctx, crate, b, store_bb, new_role_pred, key, idrole_hint=None, store_stmt=None):
     """find the switch comparing new and old datum; on its 'changed' edge both queues are fed"""
     req = set(C.requeue_functions(crate))
     found = False
@@ -54,6 +54,18 @@ def _both_queues_on_change(ctx, crate, b, store_bb, new_role_pred, key, idrole_h
             changed = [("e", sb, "0")]
         pushes = {c.bb for c in b.calls if c.callee and c.callee.name == "push" and c.args and role_mentions_field(b.role_of_operand(c.args[0]), "modify_queue")}
         rqs = {c.bb for c in b.calls if c.callee and c.callee.target in req}
+        # ... of the class whose datum was stored (another class's usages do not count)
+        if store_stmt is not None:
+            tgt = b.role_of_local(store_stmt["lhs"]["l"]) if store_stmt["lhs"]["p"] and store_stmt["lhs"]["p"][0] == "*" else None
+            subs = [strip_role(x) for x in role_walk(tgt)] if tgt is not None else []
+            if subs:
+                same = set()
+                for c in b.calls:
+                    if c.callee and c.callee.target in req and len(c.args) > 1:
+                        idr = strip_role(b.role_of_operand(c.args[1]))
+                        if idr in subs:
+                            same.add(c.bb)
+                rqs = same
         ok1 = bool(pushes) and b.must_pass(changed, b.return_blocks(), pushes)
         ok2 = bool(rqs) and b.must_pass(changed, b.return_blocks(), rqs)
         ctx.check(ok1, "modify-queue-on-change:" + key, "when the datum changed the class is pushed to modify_queue",
@@ -86,7 +98,7 @@ def a1(ctx):
                   "the merge in %s does not take the class's current datum as an operand: %s" % (C.short(root.id), role_str(sr)), where_of(b, bi, s.get("line")))
         if role_mentions_call(sr, "make"):
             n_make += 1
-            _both_queues_on_change(ctx, crate, b, bi, None, key)
+            _both_queues_on_change(ctx, crate, b, bi, None, key, store_stmt=s)
     ctx.floor("merge(old, make(node)) updaters", n_make, 1)
 
 
@@ -132,7 +144,7 @@ def a2(ctx):
         surv_ok = bool(lifted) and not (lifted & dep_top) and bool(dep_top)
         ctx.check(surv_ok, "stored-in-survivor:" + key, "the joined datum is stored in the surviving class (deprecated side: %s)" % sorted(p for _, p in dep_top),
                   "the joined datum is stored through %s (bound to %s), which is not the surviving class's datum (the class whose union-find entry is redirected is %s)" % (role_str(tgt)[:80], sorted(lifted), sorted(dep_top)), where_of(b, bi, s.get("line")))
-        _both_queues_on_change(ctx, crate, b, bi, None, key)
+        _both_queues_on_change(ctx, crate, b, bi, None, key, store_stmt=s)
     ctx.floor("datum stores in the merge region", n, 1)
 
 
